@@ -147,8 +147,52 @@ def m_sid_free(it, p, callee, args):
     return out
 
 
+def m_btree_first(it, p, callee, args):
+    """BTreeSet<(Instant, i16)>::first of the orphanage: None, or some orphaned stream id (the set mirrors the `orphans` map)"""
+    tracker_set = args[0]
+    # the tracker value is reachable from the table: find the orphans presence array through the path's first frame
+    out = []
+    sid = it.fresh("oldest_orphan", 16)
+    op = None
+    for fr in list(p.stack) + [p.locals]:
+        for c in fr.values():
+            v = c.v
+            for _ in range(3):
+                if isinstance(v, Ref):
+                    try:
+                        v = sm.deref(v)
+                    except Exception:
+                        break
+            if isinstance(v, Tup) and v.name == "ResponseHandlerMap":
+                op = v.f[3].f[0].f[0].t
+            if isinstance(v, Tup) and v.name == "OrphanageTracker":
+                op = v.f[0].f[0].t
+    if op is None:
+        raise mir.Unsupported("BTreeSet::first outside the orphanage tracker")
+    q = mir.fork(p)
+    q.pc.append(z3.Select(op, sid))
+    if it.feasible(q.pc):
+        out.append((q, sm.some(it, Ref(Cell(Tup([Opaque("instant"), Int(sid, 16, True)]))))))
+    p.pc.append(z3.Bool(f"orphanage_empty!{next(it._fresh)}"))
+    out.append((p, sm.none(it)))
+    return out
+
+
+def m_option_branch(it, p, callee, args):
+    o = args[0]
+    d = z3.If(o.discr.t == 1, bv(0, 64), bv(1, 64))
+    pl = {1: Tup([sm.none(it)])}
+    if 1 in o.payloads:
+        pl[0] = o.payloads[1]
+    return Enum(Int(d, 64, True), pl, sm.CONTROLFLOW, "ControlFlow")
+
+
 def models():
     m = {}
+    m[r"^BTreeSet::<\(tokio::time::Instant, i16\)>::first$"] = m_btree_first
+    m[r"^<Option<.*> as Try>::branch$"] = m_option_branch
+    m[r"^<Option<.*> as FromResidual<Option<(std::convert::)?Infallible>>>::from_residual$"] = lambda it, p, c, a: sm.none(it)
+    m[r"^<(std::time::)?Duration as PartialOrd>::(lt|le|gt|ge)$"] = lambda it, p, c, a: Bool(z3.Bool(f"duration_cmp!{next(it._fresh)}"))
     m[r"^std::collections::HashMap::<.*>::insert$"] = m_insert
     m[r"^std::collections::HashMap::<.*>::remove::<"] = m_remove
     m[r"^std::collections::HashMap::<.*>::get::<"] = m_get
@@ -187,7 +231,7 @@ def m_or_else(it, p, callee, args):
     return out
 
 
-INLINE = [r"^OrphanageTracker::(insert|remove|contains)$", r"^ResponseHandlerMap::lookup$"]
+INLINE = [r"^OrphanageTracker::\w+$", r"^ResponseHandlerMap::(lookup|orphan|allocate)$"]
 
 
 # ------------------------------------------------------------------------------------------------ invariant
